@@ -439,7 +439,7 @@ impl<Traits: ?Sized + Trait, M: MemBuilder> AnyVec<Traits, M>
     /// Calling this method with the incorrect type is undefined behavior.
     #[inline]
     pub unsafe fn downcast_ref_unchecked<T: 'static>(&self) -> AnyVecRef<T, M> {
-        AnyVecRef(AnyVecTyped::new(NonNull::from(&self.raw)))
+        AnyVecRef(AnyVecTyped::new(NonNull::from(&self.raw)), PhantomData)
     }
 
     /// Returns [`AnyVecMut`] - typed view to mut AnyVec,
@@ -525,7 +525,8 @@ impl<Traits: ?Sized + Trait, M: MemBuilder> AnyVec<Traits, M>
             ManuallyDrop::new(ElementPointer::new(
                 AnyVecPtr::from(self),
                 NonNull::new_unchecked(element_ptr)
-            ))
+            )),
+            PhantomData
         )
     }
 
@@ -848,11 +849,16 @@ impl<'a, Traits: ?Sized + Trait, M: MemBuilder> IntoIterator for &'a mut AnyVec<
 ///
 /// [`AnyVec`]: crate::AnyVec
 /// [`AnyVec::downcast_ref`]: crate::AnyVec::downcast_ref
-pub struct AnyVecRef<'a, T: 'static, M: MemBuilder + 'a>(pub(crate) AnyVecTyped<'a, T, M>);
+pub struct AnyVecRef<'a, T: 'static, M: MemBuilder + 'a>(
+    pub(crate) AnyVecTyped<'a, T, M>,
+    // `AnyVecRef` is a shared (and `Clone`able) view:
+    // it may be `Send` only if shared references to the elements and the storage are.
+    pub(crate) PhantomData<&'a (T, AnyVecRaw<M>)>
+);
 impl<'a, T: 'static, M: MemBuilder + 'a> Clone for AnyVecRef<'a, T, M>{
     #[inline]
     fn clone(&self) -> Self {
-        Self(self.0.clone())
+        Self(self.0.clone(), PhantomData)
     }
 }
 impl<'a, T: 'static, M: MemBuilder + 'a> Deref for AnyVecRef<'a, T, M>{
